@@ -8,11 +8,11 @@ import (
 	"os"
 	"runtime"
 	"strconv"
-	"sync"
-	"time"
 	"strings"
+	"sync"
 	"testing"
 	"testing/synctest"
+	"time"
 )
 
 // TestSim runs the scenarios of $SIM_IN against the real library inside a
